@@ -2,6 +2,7 @@
 import ast
 import glob
 import os
+import re
 import sys
 from fractions import Fraction
 
@@ -742,6 +743,272 @@ def rule_stencil(chk, ci, concrete):
                        func='%s.%s' % (c2.name, f.name), detail_bad='stencil loops: %d (expected one per axis)' % len(hw), detail_ok='one loop per axis')
 
 
+SENTINELS = ('NULL', '-1', '0', 'UINT_MAX')
+
+
+def is_sentinel_test(t):
+    """`x == NULL`, `idx > -1`, `it == table.end()`, `n == 0`, `_next != UINT_MAX` (also under not / and / or): the cell, bucket or link is absent"""
+    if isinstance(t, ast.BoolOp):
+        return all(is_sentinel_test(v) for v in t.values)
+    if isinstance(t, ast.UnaryOp) and isinstance(t.op, ast.Not):
+        return is_sentinel_test(t.operand)
+    if isinstance(t, ast.Compare) and len(t.ops) == 1:
+        l, r = t.left, t.comparators[0]
+        for a, b in ((l, r), (r, l)):
+            sb = compact(b)
+            if sb in SENTINELS or sb.endswith('.end()'):
+                # the tested value is a looked-up handle: a name, an element, or a parameterless query of a container
+                if isinstance(a, (ast.Name, ast.Subscript, ast.Attribute)) or (isinstance(a, ast.Call) and not a.args):
+                    return True
+    return False
+
+
+GEOM = re.compile(r'(^|[._])([xyzh]|hmax|hmin|xmin|xmax|length|radius_scale2?|cell_size|cell_sizes)(_ptr|_boxes)?$')
+
+
+def geometry_tainted(fn):
+    """names of fn whose value depends (flow-insensitively, through assignments in fn) on a coordinate, a smoothing length, the search radius or a cell size"""
+    defs = {}
+    for a in ast.walk(fn):
+        if isinstance(a, ast.Assign):
+            tg, val = a.targets, a.value
+        elif isinstance(a, ast.AugAssign):
+            tg, val = [a.target], a.value
+        elif isinstance(a, ast.AnnAssign) and a.value is not None:
+            tg, val = [a.target], a.value
+        else:
+            continue
+        for t in tg:
+            for n in ([t] if not isinstance(t, ast.Tuple) else t.elts):
+                base = n
+                while isinstance(base, (ast.Subscript, ast.Attribute)) and not isinstance(base, ast.Name):
+                    if isinstance(base, ast.Attribute) and isinstance(base.value, ast.Name) and base.value.id == 'self':
+                        break
+                    base = base.value
+                defs.setdefault(compact(base), []).append(val)
+        # out-parameters: f(..., &c_x, &c_y) makes c_x depend on the other arguments
+    for c in M.calls(fn):
+        outs = [x.args[0] for x in c.args if isinstance(x, ast.Call) and M.call_name(x) == '__addr__' and x.args]
+        for o in outs:
+            defs.setdefault(compact(o), []).append(ast.Tuple(elts=[x for x in c.args if not (isinstance(x, ast.Call) and M.call_name(x) == '__addr__')], ctx=ast.Load()))
+    memo = {}
+
+    def seed(text):
+        last = re.split(r'\[', text)[0]
+        return bool(GEOM.search(last))
+
+    def tainted_expr(e, stack):
+        for n in ast.walk(e):
+            if isinstance(n, (ast.Name, ast.Attribute)):
+                tx = compact(n)
+                if seed(tx) or tainted_name(tx, stack):
+                    return True
+        return False
+
+    def tainted_name(name, stack):
+        if name in memo:
+            return memo[name]
+        if name in stack:
+            return False
+        r = seed(name) or any(tainted_expr(v, stack | set([name])) for v in defs.get(name, []))
+        memo[name] = r
+        return r
+    tainted_any = lambda e: tainted_expr(e, frozenset())     # noqa
+
+    # second question: does a value depend on the destination's smoothing length and on no source-side / global length?
+    def reaches(e, pat, stack=frozenset()):
+        for n in ast.walk(e):
+            if isinstance(n, (ast.Name, ast.Attribute, ast.Subscript)):
+                tx = compact(n).split('[')[0]
+                if pat.search(tx):
+                    return True
+                if tx in defs and tx not in stack and any(reaches(v, pat, stack | set([tx])) for v in defs[tx]):
+                    return True
+        return False
+    tainted_any.dest_radius_only = lambda e: reaches(e, DEST_H) and not reaches(e, OTHER_LEN)
+    return tainted_any
+
+
+DEST_H = re.compile(r'(^|[._])(d_h|q_h|dst_h_ptr|dst_h|hi)$|^h$')
+OTHER_LEN = re.compile(r'(^|[._])(s_h|src_h_ptr|src_h|hmax|cell_size|cell_sizes|hj|hj2)$')
+
+
+def allowed_control(t, tainted):
+    """a condition under which candidates may be skipped: absence of a cell / bucket / link, equality of looked-up keys, a flag or a counter bound that does not
+    depend on geometry"""
+    if isinstance(t, ast.BoolOp):
+        return all(allowed_control(v, tainted) for v in t.values)
+    if isinstance(t, ast.UnaryOp) and isinstance(t.op, ast.Not):
+        return allowed_control(t.operand, tainted)
+    if is_sentinel_test(t):
+        return True
+    if isinstance(t, ast.Compare) and len(t.ops) == 1:
+        if isinstance(t.ops[0], (ast.Eq, ast.NotEq, ast.Is, ast.IsNot)):
+            return True
+        # a bound check of a looked-up index against a stored count (`idx < num_particles`)
+        if any(isinstance(x, (ast.Name, ast.Attribute)) and not tainted(x) for x in (t.left, t.comparators[0])):
+            return True
+        return not tainted(t)
+    if isinstance(t, (ast.Name, ast.Attribute)):
+        return not tainted(t)
+    return False
+
+
+def controlling_conditions(fn, site_if, stmt):
+    """conditions the examination of a candidate depends on inside fn: tests of the ifs / whiles enclosing the acceptance test and the guards of every
+    continue / break that precedes it in an enclosing loop body"""
+    out = []
+    cur = site_if
+    while True:
+        par = getattr(cur, 'parent', None)
+        if par is None or par is fn:
+            break
+        if isinstance(par, (ast.If, ast.While)):
+            out.append((par.test, par))
+        if isinstance(par, (ast.For, ast.While)):
+            for x in ast.walk(par):
+                if isinstance(x, (ast.Continue, ast.Break)) and M.enclosing(x, (ast.For, ast.While)) is par and x.lineno < stmt.lineno:
+                    g = M.enclosing(x, (ast.If,))
+                    if g is not None and any(g is y for y in ast.walk(par)):
+                        out.append((g.test, g))
+                    else:
+                        out.append((None, x))
+        cur = par
+    uniq = []
+    for t, n in out:
+        if not any(n is m for _, m in uniq):
+            uniq.append((t, n))
+    return uniq
+
+
+def rule_no_pruning(chk, ci, concrete):
+    """a candidate is rejected only by the acceptance predicate; a cell of the stencil is skipped only when it does not exist"""
+    seen = set()
+    n = 0
+    for rel, cls in concrete:
+        got = ci.lookup_method(rel, cls, 'find_nearest_neighbors')
+        if got is None or got[1].name in ('NNPSBase',):
+            got = ci.lookup_method(rel, cls, 'get_nearest_particles_no_cache')
+        if got is None:
+            continue
+        r2, c2, fn = got
+        fns = [(r2, c2, fn)]
+        for c in M.calls(fn):
+            nm = M.call_name(c) or ''
+            if nm.startswith('self.') and nm.count('.') == 1:
+                h = ci.lookup_method(r2, c2, nm[5:])
+                if h is not None and accept_sites(h[2]):
+                    fns.append(h)
+        for r3, c3, f3 in fns:
+            key = (r3, c3.name, f3.name)
+            if key in seen:
+                continue
+            seen.add(key)
+            M.set_parents(f3)
+            tainted = geometry_tainted(f3)
+            for site_if, app in accept_sites(f3):
+                for test, node in controlling_conditions(f3, site_if, app):
+                    n += 1
+                    who = '%s.%s' % (c3.name, f3.name)
+                    inst = '%s:%s' % (who, compact(test)[:60] if test is not None else 'unconditional-skip@%d' % node.lineno)
+                    okk = test is not None and allowed_control(test, tainted)
+                    if not okk and test is not None:
+                        gather_only = [c for c in ast.walk(test) if isinstance(c, ast.Compare) and isinstance(c.ops[0], (ast.Lt, ast.LtE, ast.Gt, ast.GtE)) and
+                                       any(tainted.dest_radius_only(x) for x in (c.left, c.comparators[0]))]
+                        if not gather_only:
+                            chk.undecided('candidates-only-rejected-by-predicate', inst, node=node, file=r3, func=who,
+                                          detail='a geometric pruning test `%s` this checker has no rule for: whether it keeps every particle the predicate accepts needs review' % compact(test)[:120])
+                            continue
+                    chk.decide(bool(okk), 'candidates-only-rejected-by-predicate', inst, node=node, file=r3, func=who,
+                               detail_bad='whether a source particle is examined depends on `%s`: a bound built from the query particle\'s own radius only, so sources whose larger h reaches '
+                                          'the query point (accepted by the predicate through xij2 < hj2) are pruned' % (compact(test) if test is not None else 'an unconditional skip'),
+                               detail_ok='absence / key-equality / geometry-independent test')
+    chk.floor('conditions controlling candidate examination', n, 11)
+
+
+def rule_octree(chk):
+    """tree searches prune a node only when neither the query's radius nor the largest source radius in the node reaches it"""
+    from verif_static import symb as S
+    rel = 'pysph/base/octree_nnps.pyx'
+    t = M.cy(rel)
+    cls = M.find_class(t, 'OctreeNNPS')
+    fn = M.find_func(cls, '_get_neighbors')
+    who = 'OctreeNNPS._get_neighbors'
+    pr = [i for i in fn.body if isinstance(i, ast.If) and len(i.body) == 1 and isinstance(i.body[0], ast.Return)]
+    leaf = [i for i in fn.body if isinstance(i, ast.If) and accept_sites(ast.Module(body=[i], type_ignores=[]))]
+    if len(pr) != 1 or not leaf:
+        raise AnalysisError('OctreeNNPS._get_neighbors: pruning test or leaf scan vanished')
+    chk.decide(pr[0].lineno < leaf[0].lineno, 'tree-pruning-bound', 'prune-before-scan', node=pr[0], file=rel, func=who, detail_bad='the pruning return does not precede the leaf scan',
+               detail_ok='prune, then scan the leaf / recurse')
+    ctx = S.Ctx(seconds=20)
+    pre = [s for s in fn.body if s.lineno < pr[0].lineno]
+    try:
+        ev = S.Evaluator(ctx, ast.FunctionDef(name='f', args=fn.args, body=M.docstring_stripped(pre), decorator_list=[]))
+        ev.run()
+        got = ev.cond(pr[0].test)
+        rs = ctx.var('self.radius_scale')
+        eff = ctx.var('node.length') * S.Poly.const(S.Fraction(1, 2)) + ctx.fn('max', [ctx.mul(rs, ctx.var('q_h')), ctx.mul(rs, ctx.var('node.hmax'))])
+        want = S.Poly.const(0)
+        for k, q in enumerate(('q_x', 'q_y', 'q_z')):
+            centre = ctx.var('node.xmin[%d]' % k) + ctx.var('node.length') * S.Poly.const(S.Fraction(1, 2))
+            c = ctx.ind(ctx.fn('abs', [centre - ctx.var(q)]) - eff)
+            want = ctx.simplify(want + c - ctx.mul(want, c))
+        ok = ctx.prove_zero(got - want)[0]
+        chk.decide(ok, 'tree-pruning-bound', 'OctreeNNPS:eff-radius', node=pr[0], file=rel, func=who,
+                   detail_bad='a node must be skipped iff on some axis |centre - q| >= length/2 + max(radius_scale*q_h, radius_scale*node.hmax) with centre = xmin + length/2: '
+                              'a smaller bound (e.g. without node.hmax) prunes sources whose own h reaches the query point', detail_ok='|centre_k - q_k| >= length/2 + max(rs*q_h, rs*node.hmax) on some axis k')
+    except (S.Unsupported, S.Budget) as e:
+        chk.undecided('tree-pruning-bound', 'OctreeNNPS:eff-radius', node=pr[0], file=rel, func=who, detail=str(e))
+    # every child's hmax is the running maximum of the h of the particles assigned to that child, and is the one handed to the child node
+    trel = 'pysph/base/octree.pyx'
+    tt = M.cy(trel)
+    n = 0
+    for f in [x for x in ast.walk(tt) if isinstance(x, ast.FunctionDef)]:
+        ups = [a for a in ast.walk(f) if isinstance(a, ast.Assign) and isinstance(a.targets[0], ast.Subscript) and compact(a.targets[0].value) in ('hmax_children',) or
+               isinstance(a, ast.Assign) and isinstance(a.targets[0], ast.Subscript) and compact(a.targets[0].value).startswith('threads_hmax')]
+        if not ups:
+            continue
+        fq = M.qualname(f)
+        for a in ups:
+            tgt = compact(a.targets[0])
+            n += 1
+            if isinstance(a.value, ast.Constant):
+                chk.decide(a.value.value == 0, 'tree-pruning-bound', '%s:%s=0@%d' % (fq, tgt, a.lineno), node=a, file=trel, func=fq, detail_bad='running maximum not seeded with 0', detail_ok='seed 0')
+                continue
+            if isinstance(a.value, ast.Call) and M.call_name(a.value) in ('vector[double]',) or compact(a.value).startswith('vector['):
+                n -= 1
+                continue
+            okk = isinstance(a.value, ast.Call) and M.call_name(a.value) == 'fmax' and tgt in [compact(x) for x in a.value.args] and len(a.value.args) == 2
+            other = [x for x in a.value.args if compact(x) != tgt] if okk else []
+            okk = okk and len(other) == 1 and (compact(other[0]).startswith('src_h_ptr[') or
+                                               (compact(other[0]).startswith('threads_hmax') and compact(other[0]).endswith(compact(a.targets[0].slice) + ']')))
+            chk.decide(bool(okk), 'tree-pruning-bound', '%s:%s@%d' % (fq, tgt, a.lineno), node=a, file=trel, func=fq,
+                       detail_bad='`%s = %s` is not a running maximum of the smoothing lengths put into this child (fmax of itself and the particle\'s h / the per-thread maximum of the same child)' % (tgt, compact(a.value)),
+                       detail_ok='%s = fmax(%s, %s)' % (tgt, tgt, compact(other[0]) if other else ''))
+        for c in M.calls(f):
+            if (M.call_name(c) or '').endswith('_new_node'):
+                kw = dict((k.arg, k.value) for k in c.keywords)
+                if 'hmax' not in kw or compact(kw['hmax']) == 'self.hmax':
+                    continue
+                par = getattr(c, 'parent', None)
+                n += 1
+                hv = compact(kw['hmax'])
+                tgt = M.enclosing(c, (ast.Assign,))
+                idx = None
+                if tgt is not None and isinstance(tgt.targets[0], ast.Subscript) and compact(tgt.targets[0].value) == 'node.children':
+                    idx = compact(tgt.targets[0].slice)
+                else:
+                    # new_node = ...; node.children[k] = new_node on the next line
+                    blk = M.enclosing(c, (ast.For, ast.If, ast.While, ast.FunctionDef))
+                    for a2 in ast.walk(blk):
+                        if isinstance(a2, ast.Assign) and isinstance(a2.targets[0], ast.Subscript) and compact(a2.targets[0].value) == 'node.children' and tgt is not None \
+                                and compact(a2.value) == compact(tgt.targets[0]):
+                            idx = compact(a2.targets[0].slice)
+                chk.decide(idx is not None and hv == 'hmax_children[%s]' % idx, 'tree-pruning-bound', '%s:child-hmax@%d' % (fq, c.lineno), node=c, file=trel, func=fq,
+                           detail_bad='child %s is created with hmax=%s: a child must carry the maximum h of its own particles' % (idx, hv), detail_ok='children[%s] gets hmax_children[%s]' % (idx, idx))
+    chk.floor('octree hmax bookkeeping sites', n, 20)
+
+
 def rule_coindexed(chk):
     """x, y, z and h of one particle are read with one index: inside a loop the coordinate and smoothing-length pointers of the
     same array family must be subscripted by the same expression"""
@@ -840,6 +1107,8 @@ def main(chk):
     rule_stencil(chk, ci, concrete)
     rule_coindexed(chk)
     rule_cell_size(chk)
+    rule_no_pruning(chk, ci, concrete)
+    rule_octree(chk)
     # only valid indices, no duplicates: a sort of the result must touch exactly the slice this query appended (rule shared with C05)
     import importlib.util
     spec = importlib.util.spec_from_file_location('c05mod', os.path.join(os.path.dirname(os.path.abspath(__file__)), 'c05.py'))
